@@ -11,7 +11,7 @@ DESIGN_REF = "DESIGN.md section 4 / C03"
 CHUNK = 16
 RULE = ("(a) complete product of {3 convex families, 12 non-convex/badly scaled/linear "
         "objectives} x n in {1,2,3} x box {free, box} x start {interior, face} x maxls "
-        "{1,2,3,5,20} x maxfun {1..12,20,3000} x maxcor {1,3}, plus each problem under the packaged gradient scaler; (b) all environment runs "
+        "{1,2,3,5,20} x maxfun {1..12,20,3000} x maxcor {1,3}, plus each problem under the packaged gradient scaler, with the objective shifted by 1e9 (maxls {2,3,4} x maxfun {3,5,3000}), and convex half-open-box problems whose objective is 1e10 outside the box; (b) all environment runs "
         "with <= D deviations among the first K distinct evaluation points (K=6,D<=2 quick; "
         "K=8,D<=3 thorough; 23 answer letters) under 2 budget configurations; oracle: "
         "f(x0) >= f(x_1) >= ... >= f(x_last) >= f(result.x) with f evaluated by the "
@@ -60,6 +60,12 @@ def e1_cases(variants):
             for pr in probs:
                 for mc in (1, 3):
                     yield dict(pr, part="e1", maxls=20, maxfun=3000, maxcor=mc, scaler=1)
+            # letter: objective values huge compared with their variation (f + 1e9): ties
+            # and near-ties of trial values, searches cut by maxls / by the budget
+            for pr in probs:
+                for mls in (2, 3, 4):
+                    for mf in (3, 5, 3000):
+                        yield dict(pr, part="e1", maxls=mls, maxfun=mf, maxcor=3, offset=1e9)
             for pr in probs:
                 for mls in MAXLS:
                     for mf in MAXFUN:
@@ -69,6 +75,13 @@ def e1_cases(variants):
 
 def cases(tier, variants):
     yield from e1_cases(variants)
+    # letter: an objective that is only defined inside the box (1e10 outside - the box
+    # protects its domain), half-open boxes, minimiser beyond a bound; under all numeric
+    # variants (whether a step onto a bound overshoots by one ulp depends on the numbers)
+    for c in F.convex_cases(2, list(range(core.NVAR)), (3,), fams=("qp", "soft"),
+                            boxes=("lo", "up", "free")):
+        if any(b != "free" for b in c["boxes"]):
+            yield dict(c, part="e1", maxls=20, maxfun=3000, wall=1)
     if tier == "quick":
         yield from E.env_cases(6, 2, variants)
     else:
@@ -108,6 +121,15 @@ def run(case):
         return dict(viol=viol, outcome=f"{res.message}|nit{res.nit}",
                     nontrivial=core.case_hash(case) if nontriv else None)
     p = F.problem_of(case)
+    if case.get("offset") or case.get("wall"):
+        f_in, C_, wall = p.f, float(case.get("offset", 0.0)), bool(case.get("wall"))
+        lb_, ub_ = p.lb, p.ub
+
+        def f_user(x):
+            if wall and ((np.real(x) < lb_).any() or (np.real(x) > ub_).any()):
+                return 1e10
+            return f_in(x) + C_
+        p.f = f_user
     obs = F.Obs(p.f, p.g, p.lb, p.ub)
     its = []
 
